@@ -213,6 +213,12 @@ class Container(dict):
         compiled_pattern = re.compile(pattern)
         return self.__class__._search(self, compiled_pattern, True)
 
+    def __reduce__(self, /):
+        """
+        Used by pickle: rebuild through the constructor (which ties attributes to entries) and re-insert the entries in order. Unlike __setstate__, this also covers the empty container, for which pickle never calls __setstate__.
+        """
+        return (self.__class__, (), None, None, iter(self.__class__.items(self)))
+
     def __getstate__(self, /):
         """
         Used by pickle to serialize an instance to a dict.
